@@ -20,6 +20,30 @@ META = {
         "level_note": "trusted: the reference model in harness/ref (self-tested against finite differences), Go's runtime.MemStats for the work proxy",
         "assumptions": COMMON_ASSUMPTIONS + ["work is measured as heap allocations during BackPropagate (every tensor operation in a backward rule allocates), not wall time"],
     },
+    "C02": {
+        "run": "^TestC02_",
+        "shards": {"quick": 1, "thorough": 16},
+        "scale": {"quick": 1.0, "thorough": 8.0},
+        "rule": "generated: one application of each of the 33 differentiable ops (op drawn per case, per-op counts in classes) to fresh leaves of rank 0..5, dims 1..4, <= 200 elements, no implicit expansion; every argument kind (every dim, random factorizations, explicit/omitted/{0,0}/partial index ranges, Patch sources at non-zero offsets, Concat of 2-5 operands incl. repeats, Pow exponents incl. base 0 with 0/1/2, same tensor as both operands); random non-empty tracked subset; non-uniform upstream weighting G. non-trivial = (operand rank >= 2 or partial/whole-dim index or interior dim or >= 3 Concat operands) and >= 2 result elements; distinct by hash of the case JSON",
+        "oracle": "BackPropagate(y.Mul(G)) and BackPropagate(y) return nil; every tracked operand gets a finite gradient of exactly its shape equal to the dual-number derivative of <G, f(x)> (resp. sum f(x)); untracked operands get nil; forward value equals the reference",
+        "required_classes": ["C02.op=" + o for o in ["slice", "patch", "transpose", "reshape", "unsqueeze", "squeeze", "flatten", "sumalong", "maxalong", "minalong", "avgalong", "varalong", "stdalong", "meanalong", "scale", "pow", "exp", "log", "sin", "cos", "tan", "sinh", "cosh", "tanh", "elmax", "elmin", "add", "sub", "mul", "div", "dot", "matmul", "concat"]] + ["C02.partial_index", "C02.dot_batched", "C02.matmul_batched", "C02.interior_dim", "C02.rank=5"],
+        "technique": "property-based testing (rapid): per-operation argument generation vs forward-mode dual-number vector-Jacobian oracle",
+        "level_text": "generated search over every differentiable op, operand rank 0..5, argument kind and tracked subset with a non-uniform upstream weighting, against an independent dual-number oracle; reaches ranks, partial indexes, batched Dot/MatMul and weightings the suite's constant rank<=2 cases cannot; no absence claim beyond generated sizes",
+        "level_note": "trusted: reference model harness/ref; operand values are generated away from non-differentiable points (ties, |x|<0.2 for Log/Div/negative powers)",
+        "assumptions": COMMON_ASSUMPTIONS + ["values within 1e-6 of a max/min tie or with standard deviation < 1e-3 are discarded and counted"],
+    },
+    "C07": {
+        "run": "^TestC07_",
+        "shards": {"quick": 1, "thorough": 16},
+        "scale": {"quick": 1.0, "thorough": 8.0},
+        "rule": "generated: explicit Broadcast (leading dims dropped and/or size-1 dims, factor 1 included) and Add/Sub/Mul/Div/Dot/MatMul on broadcast-compatible operand pairs (either or both operands expanded), ranks 0..5, non-uniform upstream G, random tracked subset. non-trivial = some operand is expanded by a factor > 1; distinct by hash of the case JSON",
+        "oracle": "gradient of each tracked operand has the operand's own shape and equals the dual-number derivative w.r.t. the original operand (= sum of upstream gradient over all copies). Known finding D2 (mean instead of sum) is recognised only when the observed gradient equals the reference with each expansion's tangent scaled by exactly 1/k",
+        "required_classes": ["C07.factor>1", "C07.factor=1", "C07.new_leading_dims", "C07.size1_dim_expanded", "C07.both_at_once", "C07.first_operand_expanded", "C07.second_operand_expanded"] + ["C07.op=" + o for o in ["broadcast", "add", "sub", "mul", "div", "dot", "matmul"]],
+        "technique": "property-based testing (rapid): broadcast-pair generation vs dual-number reference; known-finding matcher for the averaged gradient",
+        "level_text": "generated search over explicit and implicit expansions with non-uniform upstream gradients against the sum-over-copies oracle; shape and factor-1 cases must pass outright, the open finding D2 is matched exactly (mean = sum/k) so any other deviation is still a violation",
+        "level_note": "trusted: reference model; the bcast_avg matcher (reference run with tangents scaled by 1/k at every expansion)",
+        "assumptions": COMMON_ASSUMPTIONS,
+    },
 }
 
 # reasons for properties without a claimed check (kept current while checks are being built)
